@@ -171,5 +171,15 @@ func StructuredLexInputs() []string {
 	// a block string with one very long line (beyond the 64 KiB buffer of a line scanner), first, in the middle, last
 	long := rep("x", 66000)
 	out = append(out, "\"\"\"\n  a\n  "+long+"\n  b\n\"\"\" y", "\"\"\""+long+"\n  b\"\"\"", "\"\"\"\n  a\n "+long+"\"\"\"")
+	// characters at the edges of every UTF-8 length class and U+FFFD, inside comments, strings and block strings,
+	// with tokens after them on the same and on the next line
+	for _, ch := range []string{"\u007f", "\u0080", "\u07ff", "\u0800", "\u0e23\u0e32\u0e04\u0e32", "\u0915\u0940", "\u0fff", "\u1000", "\ud7ff", "\ue000", "\ufffd", "\uffff", "\U00010000", "\U0010ffff", "x\ufffd\ufffdy"} {
+		out = append(out, "# "+ch+" c\n{ a }", "{ a # "+ch+"\n b } # "+ch, "\""+ch+"\" x # "+ch+" "+ch+"\ny", "\"\"\"\n  "+ch+"\n "+ch+"\n\"\"\" z", ch)
+	}
+	// block strings whose lines start with, or consist of, commas (a comma is ignored BETWEEN tokens; inside a
+	// block string it is text and never indentation)
+	for _, body := range []string{"\n  one\n, two\n", "first\n,\n", "\n,,\n  last", "\n  one\n ,  two\n", "\n,\n", ",\n ,\n  ,x", "\n\t,a\n\t b"} {
+		out = append(out, "\"\"\""+body+"\"\"\" y")
+	}
 	return out
 }
